@@ -29,7 +29,7 @@ ASSUMPTIONS = [
 BIG_KINDS = ("item", "item-ops", "$and", "$or", "$not", "$and_any_order")
 KINDS = ["item", "item-ops", "$and", "$or", "$not", "$and_any_order", "nested-times", "nested-times", "capture-ref", "nested-times-gap", "nested-times-gap", "or-with-not"]
 SHAPES = ["sandwich", "sandwich", "sandwich", "free", "meta", "meta"]
-FLOORS = {"shape=sandwich": 0.3, "shape=meta": 0.2, "edge=min": 0.035, "edge=max": 0.035, "edge=max+1": 0.028, "edge=min-1": 0.02, "rel=macro-plain-use": 0.009, "rel=macro-times-use": 0.006, "rel=operand-regcapture-ref": 0.005, "rel=operand-plain": 0.004, "bounds=multi-digit": 0.03, "bounds=around-1000": 0.004, "spelling=sibling-null": 0.04}
+FLOORS = {"shape=sandwich": 0.3, "shape=meta": 0.2, "edge=min": 0.035, "edge=max": 0.035, "edge=max+1": 0.028, "edge=min-1": 0.02, "rel=macro-plain-use": 0.009, "rel=macro-times-use": 0.006, "rel=operand-regcapture-ref": 0.005, "rel=operand-plain": 0.004, "kind=capture-user-range": 0.03, "bounds=capture-user-wider-than-64": 0.008, "bounds=multi-digit": 0.03, "bounds=around-1000": 0.004, "spelling=sibling-null": 0.04}
 for _k in KINDS:
     FLOORS[f"kind={_k}"] = 0.04
 
@@ -423,8 +423,34 @@ def _names_ok(node, operand=False):
     return lit_ok(str(node), operand=operand)
 
 
+@st.composite
+def capture_use_cases(draw):
+    """A ranged item or group that USES a capture (it defines none): mov X,.. binds &r, then a run of r instructions that name X, then
+    ret.  Narrow and wide ranges (more than 64 repetitions apart, where a written-out repetition has to fall back on something
+    else), the run at min-1 .. max+1 and at max+min."""
+    reg = draw(st.sampled_from(["%rbx", "%rcx", "%r12"]))
+    lo = draw(st.integers(0, 3))
+    width = draw(st.sampled_from([1, 2, 3, 63, 64, 65, 66, 70, 90]))
+    hi = lo + width
+    edge, r = draw(st.sampled_from([("min-1", lo - 1), ("min", lo), ("max", hi), ("max+1", hi + 1), ("max+min", hi + lo), ("inside", (lo + hi) // 2)]))
+    assume(r >= 0)
+    user = draw(st.sampled_from(["item", "or-group", "and-group", "family"]))
+    cname = "&genreg-w" if user == "family" else "&r"
+    assume(user != "family" or reg != "%r12")
+    # (a register-family occurrence repeated over a run of 65+ instructions that must FAIL runs into the regex time limit on the pinned
+    # tree already, whatever the bounds are written like: inconclusive by construction, so families keep to narrow ranges)
+    assume(user != "family" or width <= 3)
+    L = [["401000", "mov", [reg, "%rax"], [reg, "%rax"]]]
+    for q in range(r):
+        L.append([format(0x401003 + q, "x"), "push", [reg], [reg]])
+    L.append([format(0x401003 + r, "x"), "ret", [], []])
+    unit = {"item": {"push": [cname]}, "family": {"push": [cname + ".64"]}, "or-group": {"$or": [{"push": [cname]}, "zzq"]}, "and-group": {"$and": [{"push": [cname]}]}}[user]
+    pattern = [{"mov": [cname]}, dict(unit, times={"min": lo, "max": hi}), "ret"]
+    return {"shape": "sandwich", "kind": "capture-user-range", "edge": edge if edge != "inside" else "meta", "listing": L, "pattern": pattern, "r": r, "flags": [False, False], "wide": width > 64}
+
+
 def strategy(tier):
-    return cases()
+    return st.one_of(*([cases()] * 11 + [capture_use_cases()]))
 
 
 def evaluate(case):
@@ -444,6 +470,8 @@ def evaluate(case):
         ev.tags.append("bounds=multi-digit")
     if case.get("huge"):
         ev.tags.append("bounds=around-1000")
+    if case.get("wide"):
+        ev.tags.append("bounds=capture-user-wider-than-64")
     if case.get("spelling"):
         ev.tags.append("spelling=" + case["spelling"])
     if any(isinstance(it, dict) and len(it) == 1 and str(list(it)[0]).startswith("$") and isinstance(list(it.values())[0], dict) and "times" in list(it.values())[0] for it in (case["pattern"] if isinstance(case["pattern"], list) else [])):
